@@ -1,7 +1,7 @@
 """Analysis library over the fact base: provenance expressions (def-use closure), comparison normal
 form, guarded edges, `?`/match ok-edges, field-writer census, bounded path enumeration with
 discriminant/boolean constant propagation (for decision tables)."""
-from .facts import Fn, op_place, rv_operands
+from .facts import Fn, op_place, rv_operands, norm
 from .core import AnchorLost
 
 # ------------------------------------------------------------------------------------------------
@@ -18,8 +18,8 @@ TRANSPARENT_SUFFIX = (
     "core::convert::AsRef<U>>::as_ref",
     "alloc::borrow::ToOwned>::to_owned",
     "core::iter::traits::collect::IntoIterator>::into_iter",
-    "alloc::rc::Rc::<T>::new",
-    "alloc::boxed::Box::<T>::new",
+    "alloc::rc::Rc::new",
+    "alloc::boxed::Box::new",
     "core::convert::Into::into",
     "core::convert::From::from",
     "core::clone::Clone::clone",
@@ -89,7 +89,7 @@ class Prov:
         if "const" in op:
             c = op["const"]
             if "fn" in c:
-                return ("fnref", c["fn"]["path"])
+                return ("fnref", norm(c["fn"]["path"]))
             if "static" in c:
                 return ("static", c["static"])
             if "promoted" in c:
@@ -112,7 +112,7 @@ class Prov:
                     rest = [e for e in p["p"] if e != "*"][n:]
                     return self._project(base, rest, depth, seen)
         # a partially-assigned aggregate: `_5.0 = x`
-        if p["p"] and p["l"] in self.partial:
+        if p["p"] and p["p"][0] != "*" and p["l"] in self.partial:
             for proj, bi, si, rv in self.partial[p["l"]]:
                 if _same_proj(proj, p["p"][:len(proj)]):
                     base = self._rv(rv, depth + 1, seen) if not hasattr(rv, "path") else self._call(rv, depth + 1, seen)
@@ -789,3 +789,87 @@ def variant_of(st, fn, param_name_or_local, projs=()):
                 l = i
                 break
     return st.variants.get((l, tuple(projs)))
+
+
+def path_result(fn, st):
+    """'Ok' / 'Err' / None: which Result variant the path stored into _0 last (from_residual counts as Err)."""
+    res = None
+    for bb in st.blocks:
+        b = fn.blocks[bb]
+        for s in b["stmts"]:
+            if "lhs" in s and s["lhs"]["l"] == 0 and not s["lhs"]["p"]:
+                rv = s["rv"]
+                if rv["k"] == "agg" and rv.get("kind") == "adt" and rv["variant"] in ("Ok", "Err", "Some", "None"):
+                    res = "Ok" if rv["variant"] in ("Ok", "Some") else "Err"
+                else:
+                    res = "?"
+        t = b["term"]
+        if t["k"] == "call" and t["dest"]["l"] == 0 and not t["dest"]["p"]:
+            res = "Err" if is_from_residual(t["callee"]["path"]) else "call:" + norm(t["callee"]["path"])
+    return res
+
+
+def path_calls(st, *suffixes):
+    return [c for c in st.calls if c.path.endswith(tuple(suffixes))]
+
+
+def const_bool_result(fn):
+    """For a tiny fn returning an aggregate / bool built from constants: provenance of _0."""
+    return Prov(fn).local(0)
+
+
+class PathProv(Prov):
+    """Provenance restricted to one CFG path: for every local only its last definition along the
+    path is visible (reaching definitions on that path).  No values are computed; expressions are
+    the same trees as in Prov."""
+
+    def __init__(self, fn, blocks, max_depth=24):
+        super().__init__(fn, max_depth)
+        order = {}
+        for i, b in enumerate(blocks):
+            order[b] = i          # last visit wins
+        onpath = set(blocks)
+        nd = {}
+        for l, ds in self.defs.items():
+            best = None
+            for d in ds:
+                bi = d[1]
+                if bi not in onpath:
+                    continue
+                key = (order[bi], d[2] if d[2] is not None else 10 ** 6)
+                if best is None or key > best[0]:
+                    best = (key, d)
+            if best:
+                nd[l] = [best[1]]
+        self.defs = nd
+        npart = {}
+        for l, ps in self.partial.items():
+            keep = [x for x in ps if x[1] in onpath]
+            if keep:
+                npart[l] = keep
+        self.partial = npart
+        self._memo = {}
+
+    def local(self, l, depth=0, seen=frozenset()):
+        if 1 <= l <= self.fn.argc and l not in self.defs:
+            return ("param", self.fn.local_name(l), l)
+        if l in seen or depth > self.max_depth:
+            return ("unknown", "cycle")
+        ds = self.defs.get(l)
+        if not ds:
+            return ("unknown", "undef:_%d" % l)
+        kind, bi, si, x = ds[0]
+        seen2 = seen | {l}
+        return self._call(x, depth + 1, seen2) if kind == "call" else self._rv(x, depth + 1, seen2)
+
+
+def constraint_subject(prov, key):
+    """Expression denoted by a variant-constraint key (local, projection-keys) of a path state."""
+    l, projs = key
+    e = prov.local(l)
+    for pk in projs:
+        if pk[0] == "f":
+            e = _field(e, str(pk[1])) if e[0] in ("tuple",) else ("field", e, str(pk[1]))
+        elif pk[0] == "dc":
+            e = ("as", e, pk[1])
+    return e
